@@ -107,7 +107,7 @@ def check(tier):
         return rep.finish()
     ok, log = C.coq_make(["theories/Props/C12.vo"])
     for t in ["levels_are_the_directives_in_order", "level_terminals_are_the_ones_written",
-              "every_production_handle_is_a_production_of_the_grammar", "levels_example"]:
+              "every_production_handle_is_a_production_of_the_grammar", "recorded_levels_are_exactly_the_directives", "levels_example"]:
         rep.obligation("Props/C12.v: " + t, ok)
     rep.cov["print_assumptions"] = "Closed under the global context x%d" % log.count("Closed under the global context") if ok else "n/a"
 
